@@ -204,8 +204,11 @@ def _run_normseries(case, res):
                 lib_call(afunc.gen_term_orders, order=min(order, 8),
                          term_length=length, min_order=mo)
         for mo in (1, 2, 3):
-            exp = _inverse_series(order, mo) if order >= mo else {(order,): 1}
-            ret = lib_call(gs.expand_norm_factor, order, mo)
+            # the library enumerates (order - min_order + 1)^length tuples: bound
+            # the request for min_order 1 (length up to `order`)
+            o_req = min(order, 6) if mo == 1 else order
+            exp = _inverse_series(o_req, mo) if o_req >= mo else {(o_req,): 1}
+            ret = lib_call(gs.expand_norm_factor, o_req, mo)
             got = {}
             for pref, orders in ret:
                 for t in orders:
@@ -217,8 +220,8 @@ def _run_normseries(case, res):
             if {m: int(v) for m, v in got.items()} != exp or \
                     any(v != int(v) for v in got.values()):
                 miss = sorted(set(exp) - set(got))[:3]
-                res.violation(f'expand_norm_factor({order}, min_order={mo}) is not '
-                              f'the order-{order} coefficient of 1/(1 + sum_k '
+                res.violation(f'expand_norm_factor({o_req}, min_order={mo}) is not '
+                              f'the order-{o_req} coefficient of 1/(1 + sum_k '
                               f'lambda^k S^(k)): monomials missing {miss}, '
                               f'library {sorted(got.items())[:6]} vs series '
                               f'{sorted(exp.items())[:6]}')
